@@ -240,199 +240,4 @@ Section Facts.
       + replace (p + leads d <? n)%nat with true by lia. reflexivity.
   Qed.
 
-  (* ================================================================== the iteration loops *)
-  Section Sim.
-    Variables (ev after : hook num).
-    Variables (fm : fmod) (d : mdesc) (o : opts num) (t : Z) (p n m : nat) (ec : Z) (v1 : vals).
-    Notation idx := (Z.of_nat p + 1).
-    Hypothesis Hev : forall em cf k v, ev t em cf k v = (evf idx v, None).
-    Hypothesis Haft : forall em cf k v, after t em cf k v = (v, None).
-    Hypothesis Hshape : forall v, shape n m v -> shape n m (evf idx v).
-    Hypothesis Hp : (p < n)%nat.
-    Hypothesis Hm : (0 < m)%nat.
-    Hypothesis Hguard : t_guard fm (Z.of_nat n) idx = 0.
-    Hypothesis Hchk : rows_ok m (check d).
-    Hypothesis Hend : rows_ok m (endo d).
-    Hypothesis Hfe : fm_endo fm = endo_nums d.
-    Hypothesis Hec : w_ec (errors o) = Some ec.
-
-    Notation loop := (Solver.loop num sub absf ltb isfin zero ev after).
-
-    Fixpoint iterv (j : nat) : vals := match j with O => v1 | S j' => evf idx (iterv j') end.
-    Definition chk (j : nat) : list num := get_check d (iterv j) p.
-    Definition endo_fin (j : nat) : bool := all_finite (map (fun i => cell (iterv j) i p) (endo d)).
-
-    Lemma iterv_shape : shape n m v1 -> forall j, shape n m (iterv j).
-    Proof. intros H j. induction j as [|j IH]; cbn [iterv]; auto. Qed.
-
-    Lemma t_evaluate_ok v : shape n m v -> t_evaluate fm v idx = (evf idx v, 0).
-    Proof.
-      intros Hs. unfold FSolve.t_evaluate. rewrite (shape_ncols _ _ _ Hs Hm). rewrite t_index_idem. rewrite Hguard. reflexivity.
-    Qed.
-
-    Lemma loop_step n' k v cur lg :
-      loop d o t p (S n') k v cur lg =
-      (if negb (all_finite cur) then loop d o t p n' (S k) (evf idx v) (get_check d (evf idx v) p) (lg ++ [EvPass t k])
-       else if negb (all_finite (get_check d (evf idx v) p)) then
-         match errors o with
-         | ERaise => LRaise (evf idx v) (Some (ErrorSt, k)) (SolutionError None) (lg ++ [EvPass t k])
-         | ESkip => LDone (evf idx v) Skipped k (lg ++ [EvPass t k])
-         | EIgnore => match n' with
-                      | O => LDone (evf idx v) Failed k (lg ++ [EvPass t k])
-                      | _ => loop d o t p n' (S k) (evf idx v) (get_check d (evf idx v) p) (lg ++ [EvPass t k])
-                      end
-         | EReplace => match n' with
-                       | O => LDone (evf idx v) Failed k (lg ++ [EvPass t k])
-                       | _ => loop d o t p n' (S k) (evf idx v)
-                                   (replace_nonfinite num isfin zero (get_check d (evf idx v) p)) (lg ++ [EvPass t k])
-                       end
-         | EInvalid => LRaise (evf idx v) None ValueError (lg ++ [EvPass t k])
-         end
-       else if Z.of_nat k <? min_iter o then loop d o t p n' (S k) (evf idx v) (get_check d (evf idx v) p) (lg ++ [EvPass t k])
-       else if conv (tol o) (get_check d (evf idx v) p) cur
-            then LDone (evf idx v) Solved k ((lg ++ [EvPass t k]) ++ [EvAfter t k])
-       else loop d o t p n' (S k) (evf idx v) (get_check d (evf idx v) p) (lg ++ [EvPass t k])).
-    Proof. cbn [Solver.loop]. rewrite Hev. cbv beta iota. rewrite Haft. reflexivity. Qed.
-
-    Lemma t_loop_step n' k v cur code : shape n m v ->
-      t_loop fm ec (min_iter o) (max_iter o) (tol o) (cv_of d) idx (S n') k v cur code =
-      (if negb (all_finite (map (fun i => cell (evf idx v) i p) (endo d))) then
-         if ec =? c_ec_raise then mkFout (evf idx v) false k c_num_raise
-         else if ec =? c_ec_skip then mkFout (evf idx v) false k c_num_skip
-         else if ec =? c_ec_ignore
-              then t_loop fm ec (min_iter o) (max_iter o) (tol o) (cv_of d) idx n' (k + 1) (evf idx v) (get_check d (evf idx v) p) 0
-         else if ec =? c_ec_replace
-              then t_loop fm ec (min_iter o) (max_iter o) (tol o) (cv_of d) idx n' (k + 1)
-                          (if k <? max_iter o then t_zero fm (evf idx v) idx else evf idx v) (get_check d (evf idx v) p) 0
-         else if k <? min_iter o
-              then t_loop fm ec (min_iter o) (max_iter o) (tol o) (cv_of d) idx n' (k + 1) (evf idx v) (get_check d (evf idx v) p) 0
-         else if conv (tol o) (get_check d (evf idx v) p) cur then mkFout (evf idx v) true k 0
-         else t_loop fm ec (min_iter o) (max_iter o) (tol o) (cv_of d) idx n' (k + 1) (evf idx v) (get_check d (evf idx v) p) 0
-       else if k <? min_iter o
-            then t_loop fm ec (min_iter o) (max_iter o) (tol o) (cv_of d) idx n' (k + 1) (evf idx v) (get_check d (evf idx v) p) 0
-       else if conv (tol o) (get_check d (evf idx v) p) cur then mkFout (evf idx v) true k 0
-       else t_loop fm ec (min_iter o) (max_iter o) (tol o) (cv_of d) idx n' (k + 1) (evf idx v) (get_check d (evf idx v) p) 0).
-    Proof.
-      intros Hs. cbn [FSolve.t_loop]. rewrite (t_evaluate_ok v Hs). cbv beta iota zeta.
-      change (negb (0 =? 0)) with false. cbv iota.
-      assert (Hs' : shape n m (evf idx v)) by (apply Hshape; exact Hs).
-      rewrite (col_check n m _ d p Hs' Hp Hchk). rewrite Hfe. rewrite (col_endo n m _ d p Hs' Hp Hend).
-      reflexivity.
-    Qed.
-
-    (* what the Python loop can return when neither the evaluation nor the post-hook raises *)
-    Inductive loop_result : lres num -> Prop :=
-    | LR_solved v k lg : loop_result (LDone v Solved k lg)
-    | LR_failed v k lg : loop_result (LDone v Failed k lg)
-    | LR_skipped v k lg : errors o = ESkip -> loop_result (LDone v Skipped k lg)
-    | LR_error v k lg : errors o = ERaise -> loop_result (LRaise v (Some (ErrorSt, k)) (SolutionError None) lg)
-    | LR_invalid v lg : errors o = EInvalid -> loop_result (LRaise v None ValueError lg).
-
-    Lemma loop_results : forall n' k v cur lg, loop_result (loop d o t p n' k v cur lg).
-    Proof.
-      induction n' as [|n' IH]; intros k v cur lg.
-      - cbn [Solver.loop]. constructor.
-      - rewrite loop_step.
-        destruct (negb (all_finite cur)); [apply IH|].
-        destruct (negb (all_finite (get_check d (evf idx v) p))).
-        + destruct (errors o) eqn:E; try (constructor; exact E); destruct n'; try constructor; apply IH.
-        + destruct (Z.of_nat k <? min_iter o); [apply IH|].
-          destruct (conv (tol o) (get_check d (evf idx v) p) cur); [constructor|apply IH].
-    Qed.
-
-    (* the template's view of a Python loop result; `first` = no pass ran before the loop ended (error_code still as on entry) *)
-    Definition fo_of (r : lres num) (first : bool) (code : Z) : fout num :=
-      match r with
-      | LDone v' Solved k _ => mkFout v' true (Z.of_nat k) 0
-      | LDone v' Failed k _ => mkFout v' false (Z.of_nat k) (if first then code else 0)
-      | LDone v' Skipped k _ => mkFout v' false (Z.of_nat k) c_num_skip
-      | LDone v' _ k _ => mkFout v' false (Z.of_nat k) 0
-      | LRaise v' (Some (_, k)) _ _ => mkFout v' false (Z.of_nat k) c_num_raise
-      | LRaise v' None _ _ => mkFout v' false 0 0
-      end.
-
-    Lemma fo_of_later r c c' : fo_of r false c = fo_of r false c'.
-    Proof. destruct r as [v' [] k lg|v' [[x k]|] e lg]; reflexivity. Qed.
-
-    (* the regime in which the two loops coincide, for the passes j+1 .. j+n' *)
-    Definition regime_from (j n' : nat) : Prop :=
-      (forall i, (j < i <= j + n')%nat -> endo_fin i = all_finite (chk i)) /\
-      (errors o = ERaise \/ errors o = ESkip -> all_finite (chk j) = true) /\
-      (errors o = EReplace -> forall i, (j <= i <= j + n')%nat -> all_finite (chk i) = true) /\
-      (errors o = EIgnore -> forall i, (j < i <= j + n')%nat -> all_finite (chk (i - 1)) = false -> all_finite (chk i) = true ->
-                             conv (tol o) (chk i) (chk (i - 1)) = false).
-
-    Lemma regime_next j n' : regime_from j (S n') ->
-      (errors o = ERaise \/ errors o = ESkip -> all_finite (chk (S j)) = true) -> regime_from (S j) n'.
-    Proof.
-      intros (R1 & R2 & R3 & R4) H. repeat split.
-      - intros i Hi. apply R1. lia.
-      - exact H.
-      - intros E i Hi. apply R3; auto. lia.
-      - intros E i Hi. apply R4; auto. lia.
-    Qed.
-
-    Lemma ec_of_mode :
-      match errors o with
-      | ERaise => ec = 0 | ESkip => ec = 1 | EIgnore => ec = 2 | EReplace => ec = 3 | EInvalid => False
-      end.
-    Proof. destruct (errors o); vm_compute in Hec; congruence. Qed.
-
-    Lemma sim : forall n' j lg code,
-      shape n m (iterv j) -> regime_from j n' ->
-      t_loop fm ec (min_iter o) (max_iter o) (tol o) (cv_of d) idx n' (Z.of_nat (S j)) (iterv j) (chk j) code
-      = fo_of (loop d o t p n' (S j) (iterv j) (chk j) lg) (n' =? 0)%nat code.
-    Proof.
-      destruct template_codes as (_ & Cr & Cs & Ci & Cp & _ & _ & _ & _ & Cnr & Cns & _).
-      induction n' as [|n' IH]; intros j lg code Hs Hr.
-      - cbn [FSolve.t_loop Solver.loop fo_of Nat.eqb]. f_equal. lia.
-      - rewrite (t_loop_step n' _ _ _ code Hs). rewrite loop_step.
-        change (evf idx (iterv j)) with (iterv (S j)). fold (chk (S j)). fold (endo_fin (S j)).
-        cbn [Nat.eqb].
-        assert (Hs' : shape n m (iterv (S j))) by (cbn [iterv]; apply Hshape; exact Hs).
-        destruct Hr as (R1 & R2 & R3 & R4).
-        assert (HR : regime_from j (S n')) by (repeat split; assumption).
-        rewrite (R1 (S j)) by lia.
-        replace (Z.of_nat (S j) + 1) with (Z.of_nat (S (S j))) by lia.
-        pose proof ec_of_mode as Hmode.
-        destruct (all_finite (chk (S j))) eqn:B; cbn [negb].
-        + (* the new check vector is finite: both judge the pass, unless Python skips it because the previous one was not *)
-          destruct (all_finite (chk j)) eqn:A; cbn [negb].
-          * destruct (Z.of_nat (S j) <? min_iter o) eqn:Emin.
-            -- rewrite (IH (S j) (lg ++ [EvPass t (S j)]) 0 Hs') by (apply regime_next; auto).
-               destruct n'; [reflexivity|apply fo_of_later].
-            -- destruct (conv (tol o) (chk (S j)) (chk j)) eqn:Ec; [reflexivity|].
-               rewrite (IH (S j) (lg ++ [EvPass t (S j)]) 0 Hs') by (apply regime_next; auto).
-               destruct n'; [reflexivity|apply fo_of_later].
-          * (* previous vector not finite: only possible under 'ignore' *)
-            destruct (errors o) eqn:E; try contradiction;
-              try (exfalso; assert (Hft : false = true) by (apply R2; auto); discriminate Hft).
-            -- assert (Hc : conv (tol o) (chk (S j)) (chk j) = false).
-               { specialize (R4 eq_refl (S j)). replace (S j - 1)%nat with j in R4 by lia. apply R4; auto. lia. }
-               rewrite Hc.
-               assert (Hsame : (if Z.of_nat (S j) <? min_iter o
-                                then t_loop fm ec (min_iter o) (max_iter o) (tol o) (cv_of d) idx n' (Z.of_nat (S (S j))) (iterv (S j)) (chk (S j)) 0
-                                else t_loop fm ec (min_iter o) (max_iter o) (tol o) (cv_of d) idx n' (Z.of_nat (S (S j))) (iterv (S j)) (chk (S j)) 0)
-                               = t_loop fm ec (min_iter o) (max_iter o) (tol o) (cv_of d) idx n' (Z.of_nat (S (S j))) (iterv (S j)) (chk (S j)) 0)
-                 by (destruct (Z.of_nat (S j) <? min_iter o); reflexivity).
-               rewrite Hsame.
-               rewrite (IH (S j) (lg ++ [EvPass t (S j)]) 0 Hs') by (apply regime_next; auto; intros [H|H]; congruence).
-               destruct n'; [reflexivity|apply fo_of_later].
-            -- rewrite (R3 eq_refl j) in A by lia. discriminate.
-        + (* the new check vector is not finite *)
-          destruct (errors o) eqn:E; try contradiction.
-          * (* raise *) subst ec. rewrite Cr. cbn [Z.eqb]. rewrite (R2 (or_introl eq_refl)). cbn [negb fo_of]. rewrite Cnr. reflexivity.
-          * (* skip *) subst ec. rewrite Cr, Cs. cbn [Z.eqb Pos.eqb]. rewrite (R2 (or_intror eq_refl)). cbn [negb fo_of]. rewrite Cns. reflexivity.
-          * (* ignore *) subst ec. rewrite Cr, Cs, Ci. cbn [Z.eqb Pos.eqb].
-            destruct (all_finite (chk j)) eqn:A; cbn [negb].
-            -- destruct n' as [|n''].
-               ++ cbn [FSolve.t_loop fo_of]. f_equal. lia.
-               ++ rewrite (IH (S j) (lg ++ [EvPass t (S j)]) 0 Hs') by (apply regime_next; auto; intros [H|H]; congruence).
-                  apply fo_of_later.
-            -- rewrite (IH (S j) (lg ++ [EvPass t (S j)]) 0 Hs') by (apply regime_next; auto; intros [H|H]; congruence).
-               destruct n'; [reflexivity|apply fo_of_later].
-          * (* replace: excluded by the regime *) rewrite (R3 eq_refl (S j)) in B by lia. discriminate.
-    Qed.
-  End Sim.
-
 End Facts.
